@@ -136,8 +136,10 @@ static int run_session(xmp_context a, xmp_context b, const char *path, int rate,
 			}
 			if (vrng_chance(12)) {
 				/* position control between buffer calls: 3 restart, 4 set_position,
-				 * 5 next, 6 prev, 7 seek_time, 8 set_row */
-				ops[nops].kind = vrng_range(3, 8);
+				 * 5 next, 6 prev, 7 seek_time, 8 set_row; 10 is a refused call
+				 * (xmp_start_player with an invalid rate, xmp_set_player with an invalid
+				 * value), which must leave the stream untouched */
+				ops[nops].kind = vrng_chance(25) ? 10 : vrng_range(3, 8);
 				ops[nops++].size = (int)vrng_below(1 << 20);
 				continue;
 			}
@@ -203,6 +205,27 @@ static int run_session(xmp_context a, xmp_context b, const char *path, int rate,
 				 * still be delivered completely */
 				struct xmp_module_info mi;
 				int arg = ops[i].size, ra = 0, rb = 0;
+				if (ops[i].kind == 10) {
+					/* refused calls: no frame-boundary alignment needed, nothing may change */
+					int lc0 = ctx->p.loop_count, c0 = ctx->p.buffer_data.consumed, s0 = ctx->p.buffer_data.in_size;
+					switch (arg % 4) {
+					case 0: rb = xmp_start_player(b, 1, 0); ra = xmp_start_player(a, 1, 0); break;
+					case 1: rb = xmp_start_player(b, XMP_MAX_SRATE + 1, 0); ra = xmp_start_player(a, XMP_MAX_SRATE + 1, 0); break;
+					case 2: rb = xmp_set_player(b, XMP_PLAYER_INTERP, 9999); ra = xmp_set_player(a, XMP_PLAYER_INTERP, 9999); break;
+					default: rb = xmp_set_player(b, XMP_PLAYER_MIX, 101); ra = xmp_set_player(a, XMP_PLAYER_MIX, 101); break;
+					}
+					fprintf(o, "refused %d\n", arg % 4);
+					if (ra >= 0 || rb >= 0 || ra != rb) {
+						fprintf(o, "oracle_fail op %d: invalid call %d returned %d / %d, expected a refusal\n", i, arg % 4, ra, rb);
+						fails++;
+					}
+					if (ctx->p.loop_count != lc0 || ctx->p.buffer_data.consumed != c0 || ctx->p.buffer_data.in_size != s0) {
+						fprintf(o, "oracle_fail op %d: refused call %d changed the buffer state: loop_count %d->%d consumed %d->%d in_size %d->%d\n",
+							i, arg % 4, lc0, ctx->p.loop_count, c0, ctx->p.buffer_data.consumed, s0, ctx->p.buffer_data.in_size);
+						fails++;
+					}
+					continue;
+				}
 				if (stopped_at >= 0 || a_ended || (ended && ops[i].kind != 9) || nframes != nextf || nextf == 0) {
 					fprintf(o, "ctl skipped\n");
 					continue;
